@@ -249,8 +249,10 @@ def play_units(tier: str, seed: int):
     return us
 
 
-PROFILE = {'C04': dict(observers=False, playable=False, do_faults=False), 'C05': dict(observers=True, playable=False, do_faults=True),
-           'C06': dict(observers=True, playable=True, do_faults=False), 'C11': dict(observers=True, playable=False, do_faults=False)}
+# faults 'light' = on the default-line play-outs and every 4th departure play-out: a refused play that leaves something behind is
+# judged by each property in its own terms (trick bookkeeping, playable sets, replicas), not only by C05
+PROFILE = {'C04': dict(observers=False, playable=False, do_faults='light'), 'C05': dict(observers=True, playable=False, do_faults=True),
+           'C06': dict(observers=True, playable=True, do_faults='light'), 'C11': dict(observers=True, playable=False, do_faults='light')}
 
 
 def run_play(tag: str, tier: str, seed: int, workers: int):
